@@ -151,18 +151,47 @@ def add (c : Core) (a : AddArgs) : Core × Out :=
   | .ok f =>
     match mkThreshold c.levels a.level with
     | .error e => (c, .err e)
-    | .ok t => ({ c with handlers := c.handlers ++ [(id, ⟨t, f⟩)], minLevel := minAdd c.minLevel t }, .id id)
+    | .ok t => ({ c with handlers := c.handlers ++ [(id, ⟨t, f, a.stopFails⟩)], minLevel := minAdd c.minLevel t }, .id id)
 
 def removeOne (c : Core) (id : Nat) : Core :=
   let hs := c.handlers.filter (fun h => h.1 != id)
   { c with handlers := hs, minLevel := minOf (hs.map (·.2.threshold)) }
 
+/-- `handler.stop()` – the only statement of the `remove` loop body that runs user code -/
+def stopOut (h : Handler) : Out := if h.stopFails then .err .osError else .ok
+
+/-- `remove(id)`: pop, recompute `min_level`, publish – and only THEN `handler.stop()`, whose exception
+propagates to the caller ("This needs to be done first in case stop() raises an exception") -/
 def remove (c : Core) (id : Int) : Core × Out :=
-  if 0 ≤ id ∧ c.handlers.any (fun h => h.1 == id.toNat) then (removeOne c id.toNat, .ok)
+  if 0 ≤ id then
+    match c.handlers.find? (fun h => h.1 == id.toNat) with
+    | some h => (removeOne c id.toNat, stopOut h.2)
+    | none => (c, .err .valueError)
   else (c, .err .valueError)
 
-/-- `remove()`: the loop pops every handler in turn; its final state -/
-def removeAll (c : Core) : Core × Out := ({ c with handlers := [], minLevel := none }, .ok)
+/-- the loop of `remove()` over the snapshot `list(self._core.handlers)`: every iteration pops one
+handler, recomputes `min_level`, publishes, stops the handler; a raising `stop()` leaves the loop with
+the handlers after it still registered -/
+def removeLoop (c : Core) : List (Nat × Handler) → Core × Out
+  | [] => (c, .ok)
+  | h :: rest =>
+    let c' := removeOne c h.1
+    if h.2.stopFails then (c', .err .osError) else removeLoop c' rest
+
+def removeAll (c : Core) : Core × Out := removeLoop c c.handlers
+
+/-- NOT the code: the refuted shape "recompute `min_level` after `handler.stop()`" (once after the loop,
+or after each stop) – when `stop()` raises the recomputation is skipped.  Only used by the witness
+theorem `C01.late_min_level_update_refuted`. -/
+def removeLate (c : Core) (id : Int) : Core × Out :=
+  if 0 ≤ id then
+    match c.handlers.find? (fun h => h.1 == id.toNat) with
+    | some h =>
+      let hs := c.handlers.filter (fun x => x.1 != id.toNat)
+      if h.2.stopFails then ({ c with handlers := hs }, .err .osError)
+      else ({ c with handlers := hs, minLevel := minOf (hs.map (·.2.threshold)) }, .ok)
+    | none => (c, .err .valueError)
+  else (c, .err .valueError)
 
 def levelOp (c : Core) (name : Str) (no : NoArg) (other : Bool) : Core × Out :=
   match levelDecision c.levels name no other with
